@@ -339,6 +339,8 @@ pub struct QueryCfg {
     pub bias_fold_count: bool,
     /// C04 / C05 bias: many tags and tag operands (dynamic hints, imported tags).
     pub bias_tags: bool,
+    /// bias toward @optional edges (tags / folds / coercions / filters under missing optionals)
+    pub bias_optional: bool,
 }
 
 impl QueryCfg {
@@ -371,6 +373,7 @@ impl QueryCfg {
             },
             bias_fold_count,
             bias_tags: false,
+            bias_optional: false,
         }
     }
     pub fn simplest() -> QueryCfg {
@@ -390,6 +393,7 @@ impl QueryCfg {
             op_mask: 0,
             bias_fold_count: false,
             bias_tags: false,
+            bias_optional: false,
         }
     }
 }
@@ -602,6 +606,12 @@ impl<'a> Gen<'a> {
                 used: false,
             });
             tags.push(if use_implicit { None } else { Some(tname) });
+            if self.t.chance(1, 8) {
+                // the same property tagged twice under two names
+                let t2 = self.fresh("t");
+                self.tags.push(TagInfo { name: t2.clone(), ty: ty.clone(), vid, path: path.to_vec(), used: false });
+                tags.push(Some(t2));
+            }
         }
         Some(QProp { name, alias, ty, outputs, tags, filters })
     }
@@ -623,6 +633,9 @@ impl<'a> Gen<'a> {
         let mut kinds: Vec<u8> = vec![0, 0];
         if self.cfg.f_optional {
             kinds.push(1);
+            if self.cfg.bias_optional {
+                kinds.extend([1, 1, 1]);
+            }
         }
         if self.cfg.f_fold {
             kinds.push(2);
